@@ -44,6 +44,9 @@ def run_sequential(ctx, kind, ids, args, kwargs, cell, case):
     raise NotImplementedError
 
 
+FIXED_ROLES = {"deepjscc": ["encoder", "constraint", "channel", "decoder"], "channel_code": ["encoder", "modulator", "constraint", "channel", "demodulator", "decoder"]}
+
+
 def check_sequence_model(ctx, cls_name, ops):
     """ops: list of ("add", sid) | ("remove", index) | ("run", args tuple, kwargs dict). Compared with a list model."""
     from kaira.models.base import ConfigurableModel
@@ -52,7 +55,18 @@ def check_sequence_model(ctx, cls_name, ops):
     case = {"kind": "sequence", "model": cls_name, "ops": [list(o) for o in ops]}
     log = []
     init = [Rec(log, f"i{j}") for j in range(ops[0][1])] if ops and ops[0][0] == "init" else None
-    if cls_name == "sequential":
+    if cls_name in FIXED_ROLES:
+        # the specialised pipelines inherit add_step / remove_step: the declared list after such edits is what must run
+        from kaira.models.channel_code import ChannelCodeModel
+        from kaira.models.deepjscc import DeepJSCCModel
+        roles = FIXED_ROLES[cls_name]
+        comps = {r: Rec(log, r) for r in roles}
+        init = [comps[r] for r in roles]
+        if cls_name == "deepjscc":
+            m = DeepJSCCModel(comps["encoder"], comps["constraint"], comps["channel"], comps["decoder"])
+        else:
+            m = ChannelCodeModel(comps["encoder"], comps["constraint"], comps["modulator"], comps["channel"], comps["demodulator"], comps["decoder"])
+    elif cls_name == "sequential":
         m = SequentialModel(init) if init is not None else SequentialModel()
     else:
         m = ConfigurableModel()
@@ -124,9 +138,9 @@ def unit_sequence_stateful(ctx, cls_name, examples, steps):
         @rule(k=st.integers(0, 3))
         def init(self, k):
             self.ops.append(("init", k))
-            self.count = k
+            self.count = len(FIXED_ROLES[cls_name]) if cls_name in FIXED_ROLES else k
 
-        @precondition(lambda self: self.count < 6)
+        @precondition(lambda self: self.count < 9)
         @rule()
         def add(self):
             if not self.ops:
@@ -135,13 +149,13 @@ def unit_sequence_stateful(ctx, cls_name, examples, steps):
             self.count += 1
             self.ops.append(("add", f"s{self.n}"))
 
-        @precondition(lambda self: 0 < self.count < 6)
+        @precondition(lambda self: 0 < self.count < 9)
         @rule(j=st.integers(0, 5))
         def readd(self, j):
             self.count += 1
             self.ops.append(("readd", j))
 
-        @rule(idx=st.integers(-1, 6))
+        @rule(idx=st.integers(-1, 8))
         def remove(self, idx):
             if not self.ops:
                 self.ops.append(("init", 0))
@@ -773,7 +787,7 @@ def check_case(ctx, cell, case):
 def units(tier, seed):
     T = tier == "thorough"
     us = [Unit("fixed_pipelines", "c17:unit_fixed_pipelines", {}, 1), Unit("misc", "c17:unit_misc", {"n_gen": 2000 if T else 200}, 3)]
-    for cls_name in ("sequential", "configurable"):
+    for cls_name in ("sequential", "configurable", "deepjscc", "channel_code"):
         us.append(Unit(f"sequence_sm_{cls_name}", "c17:unit_sequence_stateful", {"cls_name": cls_name, "examples": 6000 if T else 150, "steps": 20 if T else 12}, 4))
     us.append(Unit("parallel_histories", "c17:unit_parallel_histories", {"n_gen": 2500 if T else 40}, 5))
     nmax = 5 if T else 4
